@@ -737,8 +737,19 @@ func (dr *vDriver) opLoop(n int) bool {
 	return dr.deliver(vOp{K: "loop", N: n}, o)
 }
 
+// the harness's own decoding of bytes it is about to hand to the node: a decoder that panics on them must show up as a panic of the
+// HANDLER (under the watchdog, as a finding), not take the test binary down here
+func vSafeUnmarshal(b []byte) (v *vaa.VAA, err error) {
+	defer func() {
+		if x := recover(); x != nil {
+			v, err = nil, fmt.Errorf("vaa.Unmarshal panicked: %v", x)
+		}
+	}()
+	return vaa.Unmarshal(b)
+}
+
 func (dr *vDriver) opInbound(b []byte, note string) bool {
-	if v, err := vaa.Unmarshal(b); err == nil {
+	if v, err := vSafeUnmarshal(b); err == nil {
 		dr.noteVAA(v)
 	}
 	return dr.do(vOp{K: "inbound", Bytes: hex.EncodeToString(b), Note: note}, func() {
